@@ -665,6 +665,7 @@ func ResumeTamper(args []string) {
 	shards := fs.Int("shards", 1, "shards")
 	stride := fs.Int("stride", 1, "take every n-th bit flip")
 	budget := fs.Duration("budget", 10*time.Minute, "budget")
+	only := fs.String("only", "", "run only the cases whose kind starts with this prefix")
 	fs.Parse(args)
 	installHooks()
 	res := &Result{Extra: map[string]any{}}
@@ -757,6 +758,15 @@ func ResumeTamper(args []string) {
 	kinds, outcomes := map[string]int{}, map[string]int{}
 	skipped := 0
 	highest := tbits[len(tbits)-1]
+	if *only != "" {
+		var sel []tamperCase
+		for _, c := range cases {
+			if strings.HasPrefix(c.Kind, *only) {
+				sel = append(sel, c)
+			}
+		}
+		cases = sel
+	}
 	for i, c := range cases {
 		if i%*shards != *shard {
 			continue
